@@ -187,7 +187,10 @@ def s_node(n, canon=False) -> str:
         return s_dataset(n, canon)
     if isinstance(n, Column):
         # (Column.parent = None puts None into the parent set; it is not a candidate owner)
-        return "C:" + col_name(n, canon) + "{" + ",".join(s_dataset(p, canon) for p in n.parent_candidates if p is not None) + "}"
+        # candidates are printed in the order of their canonical names (the implementation sorts them by printed name, which
+        # for anonymous sub-queries contains a hash)
+        cands = [s_dataset(p, canon) for p in n.parent_candidates if p is not None]
+        return "C:" + col_name(n, canon) + "{" + ",".join(sorted(cands)) + "}"
     if canon and isinstance(n, str) and n.startswith("subquery_"):
         return "A:" + n   # replaced below when the owner is known
     return "A:" + str(n)
